@@ -47,9 +47,10 @@ PROPS['C06']={
  ]}
 
 PROPS['C07']={
- 'bounds_statement':'in_toto_verify from MIR: one step, any u32 threshold, 2 (quick) / 3 (thorough) authorized links whose materials/products are arbitrary subsets of a small path universe with free digest bytes, free signature validity, every hash-map order.',
+ 'bounds_statement':'in_toto_verify from MIR: one step, any u32 threshold, 2 (quick) / 3 (thorough) authorized links whose materials/products are arbitrary subsets of a small path universe with free digest bytes, free signature validity, every hash-map order; plus 3 (quick) / 4 (thorough) links over a one-path universe (more links than the threshold needs, the dissenter anywhere in key-id order).',
  'assumptions':PIPE_ASSUME,
- 'obligations':[{'name':'agreement','module':'harness.C07','cls':'Agreement','quick':{'nlinks':2},'thorough':{'nlinks':3}}]}
+ 'obligations':[{'name':'agreement','module':'harness.C07','cls':'Agreement','quick':{'nlinks':2},'thorough':{'nlinks':3}},
+                {'name':'agreement_3links_small','module':'harness.C07','cls':'Agreement','quick':{'nlinks':3,'small':True},'thorough':{'nlinks':4,'small':True}}]}
 
 PROPS['C13']={
  'bounds_statement':'self-composition of in_toto_verify from MIR (reference run in insertion order vs. every permutation of every hash map) over 1-2 steps with 2-3 links per step that may differ, any u32 thresholds, free signature validity; plus the rule engine on two-algorithm digest tables under every HashMap iteration order (its verdict must equal the order-free reference model).',
